@@ -106,6 +106,16 @@ theorem failSend_eq (s : Sys) (oid : Nat) (it : Item) :
       | .stop _ => s.complete oid .ok none := by
   cases it <;> rfl
 
+@[simp] theorem failSend_pc (s : Sys) (oid : Nat) (it : Item) : (s.failSend oid it).pc = s.pc := by
+  cases it <;> rfl
+@[simp] theorem afterPush_pc (s : Sys) (it : Item) : (s.afterPush it).pc = s.pc := by
+  cases it with
+  | env m k => cases k <;> rfl
+  | stop o => rfl
+@[simp] theorem afterStrand_pc (s : Sys) (it : Item) : (s.afterStrand it).pc = s.pc := by
+  cases it with
+  | env m k => cases k <;> rfl
+  | stop o => rfl
 @[simp] theorem failSend_accepted (s : Sys) (oid : Nat) (it : Item) : (s.failSend oid it).accepted = s.accepted := by
   cases it <;> rfl
 @[simp] theorem afterPush_accepted (s : Sys) (it : Item) : (s.afterPush it).accepted = s.accepted ++ [it] := by
